@@ -318,6 +318,9 @@ class Built:
                                                     DomainMapping, ResultQuantifier, QueryObjectDescriptor)
         if isinstance(e, Comparator):
             return f"(cmp {e.operation.__name__} {self.show_term(e.left)} {self.show_term(e.right)})"
+        from entity_query_language.conclusion_selector import ExceptIf as _EI
+        if isinstance(e, _EI):
+            return f"(ExceptIf {self.show_cond(e.left)} {self.show_cond(e.right)})"
         if isinstance(e, AND):
             return f"(AND {self.show_cond(e.left)} {self.show_cond(e.right)})"
         if isinstance(e, ElseIf):
